@@ -320,3 +320,17 @@ Theorem convolve_regressors_column_count : forall ft os mo hs fir cids par,
   length (convolve_regressors ft os mo hs fir cids par) = (length cids * length hs)%nat.
 Proof. exact convolve_regressors_length. Qed.
 Print Assumptions convolve_regressors_column_count.
+
+(* FIR basis: the j-th kernel and the j-th name both belong to the delay LISTED j-th (any order, repeats allowed);
+   no sorting or de-duplication of the caller's list *)
+Theorem fir_columns_follow_listed_delays : forall (show : nat -> string) c delays os,
+  length (fir_kernels delays os) = length delays /\
+  length (regressor_names show c Fir delays) = length delays /\
+  forall j, (j < length delays)%nat ->
+    nth j (fir_kernels delays os) [] = fir_kernel (nth j delays O) os /\
+    nth j (regressor_names show c Fir delays) EmptyString = (c ++ "_delay_" ++ show (nth j delays O))%string.
+Proof.
+  intros show c delays os. split; [apply map_length|]. split; [unfold regressor_names, model_suffixes; rewrite !map_length; reflexivity|].
+  intros j H. split; [apply fir_kernels_nth; exact H|apply fir_names_nth; exact H].
+Qed.
+Print Assumptions fir_columns_follow_listed_delays.
